@@ -228,6 +228,10 @@ func judgeTree(k *run.K, t model.Tree) {
 			continue
 		}
 		k.Check("roundtrip-image", bytes.Equal(snapIn, b), "%s modified its input buffer", how)
+		if derr == nil {
+			hp := shared.HiddenPayload(back)
+			k.Check("roundtrip-image", hp == "", "%s: %s", how, hp)
+		}
 		if k.Check("roundtrip-image", derr == nil, "%s of own output failed: %v (%s)", how, derr, clip(string(b))) {
 			k.Check("roundtrip-image", model.Equal(treeOf(back), want), "%s(MarshalJSON(g)) differs from the format image: %s", how, model.Diff(treeOf(back), want))
 		}
@@ -497,6 +501,8 @@ func grammarCase(k *run.K) {
 		want := finalize(holder, ct)
 		if k.Check("grammar-doc", err == nil, "well-formed document rejected: %v", err) {
 			k.Check("grammar-doc", model.Equal(treeOf(g), want), "document decodes to %s, model says %s (%s)", treeOf(g), want, model.Diff(treeOf(g), want))
+			hp := shared.HiddenPayload(g)
+			k.Check("grammar-doc", hp == "", "decoded value carries a dropped ordinate: %s", hp)
 		}
 	}
 }
